@@ -277,6 +277,52 @@ def run(ctx: core.Ctx):
         env.close()
     ctx.evals += nwire
 
+    # ---- clients in multi-byte character sets whose trail bytes include 0x5C / 0x27 (sjis, cp932, gbk, big5): a string value
+    #      - inline, or as long data in one chunk / cut inside a character / byte by byte - is escaped as TEXT, after decoding:
+    #      the byte 0x5C inside a character is not a backslash
+    from mysql_mimic.charset import Collation
+    mb = [("sjis", "shift_jis", "\u8868\u5341 it's"), ("cp932", "cp932", "\u80fd\u8868'"), ("gbk", "gbk", "\u7e17x\\y"), ("big5", "big5", "\u529f\u8a31''"),
+          ("utf8mb4", "utf8", "\u8868\\'"), ("latin1", "latin1", "\xe9\\'")]
+    for csname, codec, text in (mb if witness is None else []):
+        coll = next((int(c) for c in Collation if c.name.startswith(csname + "_")), None)
+        if coll is None or coll > 255:
+            continue
+        raw = text.encode(codec)
+        tail = " , 'tail' -- ?"
+        for mode in ("inline", "one-chunk", "cut-in-character", "byte-by-byte"):
+            env2 = impl.Env(own_sleep=False)
+            try:
+                got_sql = []
+
+                class S2(impl.ScriptSession):
+                    async def handle_query(self, sql, attrs):
+                        got_sql.append(sql)
+                        return None
+                srv2 = impl.make_server(env2, lambda: S2(env2, 0))
+                c2 = impl.Conn(env2, srv2)
+                env2.settle(); c2.take()
+                c2.feed(cl.frame(cl.handshake_response(user=b"u", charset=coll), 1)); c2.take()
+                c2.feed(cl.frame(bytes([cl.COM_STMT_PREPARE]) + b"SELECT ?, '?', ?", 0))
+                sid = struct.unpack_from("<I", cl.reassemble(c2.take())[0][1], 1)[0]
+                p0 = pk.P(b"", pk.T_VAR_STRING, False, raw)
+                if mode != "inline":
+                    parts = {"one-chunk": [raw], "cut-in-character": [raw[:1], raw[1:]], "byte-by-byte": [raw[i:i + 1] for i in range(len(raw))]}[mode]
+                    for part in parts:
+                        c2.feed(cl.frame(bytes([cl.COM_STMT_SEND_LONG_DATA]) + struct.pack("<IH", sid, 0) + part, 0))
+                    p0.long_data = True
+                p1 = pk.P(b"", pk.T_VAR_STRING, False, tail.encode(codec))
+                c2.feed(cl.frame(bytes([cl.COM_STMT_EXECUTE]) + pk.encode_execute(False, sid, 0, [p0, p1], []), 0)); c2.take()
+                nwire += 1
+                lit = lambda t: "'" + t.replace("\\", "\\\\").replace("'", "''") + "'"   # noqa: E731
+                want = f"SELECT {lit(text)}, '?', {lit(tail)}"
+                distinct.add((b"mb", csname.encode(), mode.encode()))
+                if got_sql != [want] and witness is None:
+                    witness = dict(kind="multibyte-client-charset", client_character_set=csname, delivery=mode, value=text, value_bytes=raw.hex(),
+                                   expected=want, received=got_sql[:1])
+            finally:
+                env2.close()
+    ctx.evals += 0
+
     # ---- whole histories of prepared-statement commands on one connection against Model/Stmts.v (the statement table with
     #      its long-data buffers): what an earlier command leaves behind is what a later one finds
     import stmts_corr
